@@ -8,6 +8,7 @@ open CModel CModel.Drv
 def statelessStep (sec : String) : Option (String → Option (String × Option String)) :=
   match sec with
   | "c05" => some SpiceDrv.step
+  | "c20" => some SpiceDrv.stepWF
   | _ => none
 
 partial def loopStateless (h : IO.FS.Stream) (f : String → Option (String × Option String))
